@@ -350,6 +350,11 @@ def reshape(tens, shape, eps=1e-16, rmax=sys.maxsize):
 
     dfin = len(shape)
     cores, R = rl_orthogonal(tens.cores, tens.R, tens.is_ttm)
+    # trailing singleton modes of the input carry a (unit modulus) factor: absorb them into the previous core,
+    # otherwise the walk below can finish before reaching them and the factor is lost
+    while len(cores) > 1 and all([n == 1 for n in cores[-1].shape[1:-1]]):
+        last = cores.pop()
+        cores[-1] = tn.einsum('...k,kl->...l', cores[-1], tn.reshape(last, [last.shape[0], last.shape[-1]]))
     if tens.is_ttm:
         M = []
         N = []
